@@ -1,5 +1,6 @@
 """Check context: collects rule instances, applies known findings, writes evidence, sets exit code."""
 import json
+import re
 import os
 import sys
 import time
@@ -20,6 +21,7 @@ class Ctx:
         self.repo = repo or facts.REPO
         self.t0 = time.time()
         self.instances = []      # dict(rule,key,ok,what,where,detail)
+        self.internal_errors = []
         self.rule_docs = {}
         self.floors = {}
         self.notes = []
@@ -82,6 +84,31 @@ class Ctx:
         if not cond:
             raise CheckerError(msg)
 
+    def run(self, rule_fn, *args, **kw):
+        """Run one rule in isolation.  A rule that cannot bind its anchor (`require` failed) does
+        not abort the other rules of the check: the missing anchor is recorded as a violation of
+        that rule - on a changed tree the step the rule is about has been removed or moved where
+        the checker does not follow it, and either way the clause is no longer established.  An
+        internal error of the checker is remembered and turns the run into exit 2 unless another
+        rule reports a violation."""
+        before = set(self.rule_docs)
+        try:
+            return rule_fn(self, *args, **kw)
+        except CheckerError as e:
+            new_rules = [r for r in self.rule_docs if r not in before]
+            rule = new_rules[-1] if new_rules else (list(self.rule_docs)[-1] if self.rule_docs else 'ANCHOR')
+            slug = re.sub(r'[^A-Za-z0-9]+', '-', str(e)).strip('-')[:70]
+            self.violation(rule, 'anchor-missing|%s' % slug,
+                           'the construct this rule decides is no longer found: %s (removed, or moved '
+                           'where the checker does not follow it; the clause is not established)' % e,
+                           None)
+        except facts.FactsError:
+            raise
+        except Exception as e:      # a bug in the checker on unfamiliar code
+            import traceback
+            self.internal_errors.append('%s: %s\n%s' % (getattr(rule_fn, '__name__', rule_fn), e,
+                                                         traceback.format_exc()[-1500:]))
+
     def exception(self, rule, site, reason):
         self.exceptions_used.append({'rule': rule, 'site': site, 'reason': reason})
 
@@ -100,6 +127,9 @@ class Ctx:
             if n < floor and not failing:
                 raise CheckerError('rule %s matched %d instances, floor is %d (vacuous rule)'
                                    % (rule, n, floor))
+        if self.internal_errors and not any_new:
+            raise CheckerError('internal error in %d rule(s): %s' % (len(self.internal_errors),
+                                                                     self.internal_errors[0]))
         viols = [i for i in self.instances if not i['ok']]
         new = []
         known_hit = []
